@@ -81,6 +81,10 @@ def generate(tier, rng):
         n = rng.randint(0, 8)
         times = sorted(set(rnum(rng, True) for _ in range(n)))
         pts = [[t] if kind == "point" else [t, rnum(rng)] for t in times]
+        if kind != "point" and pts and rng.random() < 0.3:
+            # a step: two points at one time, in the order given (the list is kept as it is, not re-ordered)
+            k = rng.randrange(len(pts))
+            pts.insert(k + 1, [pts[k][0], pts[k][1] / 2 if rng.random() < 0.7 else pts[k][1] * 3])
         mx = (max(times) if times else 1.0) + rng.choice([0.0, 0.5, 1e-9])
         mn = rng.choice([0, 0.0, min(times) / 2 if times else 0.25])
         cases.append({"op": "pobj", "kind": kind, "pts": pts, "mn": mn, "mx": mx, "scale": ["tokens", 0]})
